@@ -1012,6 +1012,10 @@ pub fn late_push_programs() -> Vec<Program> {
         vec![lenter("a"), lenter("b"), pop(), Op::BusyWait { micros: 300 }],
         vec![lenter("a"), lenter("b"), levent("b.e"), pop(), lenter("c"), pop(), Op::BusyWait { micros: 300 }],
         vec![Op::LocalEnter { name: "a".into(), props: p("ck", "cv") }, pop(), lenter("b"), lprop("b.k", "b.v"), pop()],
+        // a finished top-level span first, then a sibling (with a child) still open at collect()
+        vec![lenter("a"), pop(), Op::BusyWait { micros: 300 }, lenter("b"), levent("b.e"), Op::BusyWait { micros: 300 }],
+        vec![lenter("a"), pop(), lenter("b"), Op::BusyWait { micros: 200 }, lenter("c"), pop(), Op::BusyWait { micros: 300 }],
+        vec![levent("top.e"), lenter("a"), pop(), lenter("b"), lenter("c"), Op::BusyWait { micros: 300 }],
     ];
     for shape in &shapes {
         let opens = shape.iter().filter(|o| matches!(o, Op::LocalEnter { .. })).count() as i32 - shape.iter().filter(|o| matches!(o, Op::Pop)).count() as i32;
